@@ -79,10 +79,28 @@ fn scrub(ev: &mut Ev) {
     }
 }
 
+static PANIC_COUNT: std::sync::atomic::AtomicU64 = std::sync::atomic::AtomicU64::new(0);
+static FIRST_PANIC: std::sync::Mutex<Option<(String, String)>> = std::sync::Mutex::new(None);
+
 pub fn execute(check: &str, plan: Plan, want_log: bool) -> RunResult {
     hooks::seed_getrandom(plan.seed);
     let panics = Rc::new(Cell::new(0u32));
     std::panic::set_hook(Box::new(|info| {
+        // Every panic in the process counts: a handler's (also caught by the guard) and one inside
+        // a spawned server task (an actor that dies takes its topic / subscription with it).
+        PANIC_COUNT.fetch_add(1, std::sync::atomic::Ordering::SeqCst);
+        let loc = info.location().map(|l| format!("{}:{}", l.file().rsplit("/src/").next().unwrap_or(l.file()), l.line())).unwrap_or_else(|| "?".into());
+        let msg = if let Some(s) = info.payload().downcast_ref::<&str>() {
+            s.to_string()
+        } else if let Some(s) = info.payload().downcast_ref::<String>() {
+            s.clone()
+        } else {
+            "panic".to_string()
+        };
+        let mut first = FIRST_PANIC.lock().unwrap_or_else(|e| e.into_inner());
+        if first.is_none() {
+            *first = Some((loc, msg.chars().take(160).collect()));
+        }
         if std::env::var("SIM_SHOW_PANICS").is_ok() {
             eprintln!("panic: {info}");
         }
@@ -117,6 +135,16 @@ pub fn execute(check: &str, plan: Plan, want_log: bool) -> RunResult {
     let ctx = Ctx::new(&plan_for_result, &model);
     let all = oracle::evaluate(&ctx);
     let mut all = all;
+    // A panic anywhere in the process (the guard reports a handler's own panic as CRASH.panic too;
+    // this also sees the ones inside spawned server tasks, which nobody awaits).
+    if PANIC_COUNT.load(std::sync::atomic::Ordering::SeqCst) > 0 {
+        let first = FIRST_PANIC.lock().unwrap_or_else(|e| e.into_inner()).clone();
+        if let Some((loc, msg)) = first {
+            if !all.iter().any(|v| v.rule == "CRASH.panic") {
+                all.push(Violation { rule: "CRASH.panic".into(), key: format!("panic at {loc}"), detail: format!("{} panic(s) in the server process; first at {loc}: {msg}", PANIC_COUNT.load(std::sync::atomic::Ordering::SeqCst)) });
+            }
+        }
+    }
     // Lock-order inversions: two code paths that nest the same two locks in opposite orders can
     // deadlock two threads of the multi-threaded runtime (a request then never terminates), even
     // though a single-threaded run never blocks.
